@@ -2,7 +2,7 @@
 
 PROP = {
     "targets": ["Props/C06.vo", "Corr/CorrCore.vo", "Bridge/BrC0809.vo", "Bridge/BrVMSteps.vo"],
-    "cone": ["BC/Budget.v", "BC/BudgetRun.v", "Bridge/BrVM.v", "Bridge/BrC0809.v", "BC/VMStepsProofs.v", "Bridge/BrVMSteps.v"],
+    "cone": ["BC/Budget.v", "BC/BudgetRun.v", "Bridge/BrVM.v", "Bridge/BrC0809.v", "BC/VMStepsProofs.v", "Bridge/BrVMSteps.v", "BC/SourceCorrect.v"],
     "harness": "c06",
     "mismatch_div": 16,
     "failure_bits": 8,
@@ -15,7 +15,7 @@ PROP = {
 }
 
 MANIFEST = {
-    "text": "Coq theorems about the model VM for ANY program, environment and budget (case analysis over all 52 instructions, induction over the run): the counter of created elements never decreases and is below the budget after every continuing step; a completed run created fewer elements than the budget; whatever a run did under one budget it does identically under every budget above what it created (never refused); under every budget at most what it created it fails with a budget error; descending ranges create nothing. The accounting statements of OpArray/OpMap/OpRange are re-read from vm/vm.go on every run (bridge lemma). Implementation: for generated allocating programs x environments the need N is measured (hook) and the real VM is run at budgets N+1, N, 1, 2, N/2, N+17, 10^6; the same runs are evaluated in the Coq VM and reference semantics. The accounting is tied by regeneration of the whole case bodies as well (Bridge/BrVMSteps.v): C06_range_accounting_is_source, C06_array_accounting_is_source, C06_map_accounting_is_source - the model's OpRange / OpArray / OpMap steps, budget test included, are the interpretation of the statements that exist in vm.go now.",
+    "text": "Coq theorems about the model VM for ANY program, environment and budget (case analysis over all 52 instructions, induction over the run): the counter of created elements never decreases and is below the budget after every continuing step; a completed run created fewer elements than the budget; whatever a run did under one budget it does identically under every budget above what it created (never refused); under every budget at most what it created it fails with a budget error; descending ranges create nothing. The accounting statements of OpArray/OpMap/OpRange are re-read from vm/vm.go on every run (bridge lemma). Implementation: for generated allocating programs x environments the need N is measured (hook) and the real VM is run at budgets N+1, N, 1, 2, N/2, N+17, 10^6; the same runs are evaluated in the Coq VM and reference semantics. The accounting is tied by regeneration of the whole case bodies as well (Bridge/BrVMSteps.v): C06_range_accounting_is_source, C06_array_accounting_is_source, C06_map_accounting_is_source - the model's OpRange / OpArray / OpMap steps, budget test included, are the interpretation of the statements that exist in vm.go now. Over the regenerated terms only (BC/SourceCorrect.v): C06_source_budget_verdict_is_ref - the run of the code the regenerated compiler schemes produce, by the regenerated loop with its regenerated accounting statements, from a machine in any state, is refused for the budget exactly when the reference semantics refuses (side condition run_guard, executable; example: 8 elements, accepted under 9, refused under 8 and 7).",
     "design_ref": "DESIGN.md §4 C06",
     "note": "Trusted: Coq kernel; VM model tied by executed correspondence; translator reading vm.go; the hook. Compile-time constants (folded literals, constant ranges) are outside the budget by the property's wording; see C02-budget finding.",
     "technique": "Coq proof: per-instruction invariant + limit-independence lemmas lifted to runs by induction; regenerated accounting table; executed correspondence at budgets N / N+1",
